@@ -65,6 +65,10 @@ Section Spec.
   Definition sp_symdiff (l : alist) (ks : list K) : alist :=
     sp_diff l ks ++ elems (dedup (filter (fun k => negb (memb k (keys l))) ks)).
 
+  (* every element of l occurs in ks / every element of ks is in l *)
+  Definition sp_issubset (l : alist) (ks : list K) : bool := forallb (fun kv => memb (fst kv) ks) l.
+  Definition sp_issuperset (l : alist) (ks : list K) : bool := forallb (fun k => memb k (keys l)) ks.
+
   Definition spec_step (l : alist) (o : op K V) : alist * out K V :=
     match o with
     | OInsert k v => (sp_insert l k v, ONone)
@@ -84,6 +88,8 @@ Section Spec.
     | OSetInter ks => (sp_inter l ks, ONone)
     | OSetDiff ks => (sp_diff l ks, ONone)
     | OSetSymDiff ks => (sp_symdiff l ks, ONone)
+    | OIsSubset ks => (l, OBool (sp_issubset l ks))
+    | OIsSuperset ks => (l, OBool (sp_issuperset l ks))
     end.
 
   (* a whole history: final list and the outputs, in order *)
